@@ -29,10 +29,11 @@ const (
 	fkCtxErr
 	fkAbort
 	fkPanicMulti
+	fkPanicPlain
 	fkNumKinds
 )
 
-var fkNames = []string{"none", "plain", "wrapped", "panic(error)", "panic(string)", "panic(struct)", "skip", "EOF", "ctxerr", "ErrCurrentOpAbort", "panic(errors.Join)"}
+var fkNames = []string{"none", "plain", "wrapped", "panic(error)", "panic(string)", "panic(struct)", "skip", "EOF", "ctxerr", "ErrCurrentOpAbort", "panic(errors.Join)", "panic(plainErr)"}
 
 type c03Fault struct {
 	pos  int
@@ -141,7 +142,7 @@ func c03Run(w *W, enumerate bool) {
 			return true
 		case fkPlain, fkWrapped, fkAbort:
 			return contErr
-		case fkPanicErr, fkPanicStr, fkPanicStruct, fkPanicMulti:
+		case fkPanicErr, fkPanicStr, fkPanicStruct, fkPanicMulti, fkPanicPlain:
 			return contPanic
 		}
 		return false
@@ -190,6 +191,10 @@ func c03Run(w *W, enumerate bool) {
 		case fkPanicMulti:
 			// the panic value is a standard multi-error
 			panic(errors.Join(panicErr, unrelatedInPanic))
+		case fkPanicPlain:
+			// the panic value is the very error ExcludedErrors may list: a
+			// panic stays a panic
+			panic(plainErr)
 		}
 		return nil
 	}
@@ -292,7 +297,7 @@ func c03Run(w *W, enumerate bool) {
 		}
 	}
 	plainReportable := (invoked[fkPlain] || invoked[fkWrapped]) && excl != 1
-	panicked := invoked[fkPanicErr] || invoked[fkPanicStr] || invoked[fkPanicStruct] || invoked[fkPanicMulti]
+	panicked := invoked[fkPanicErr] || invoked[fkPanicStr] || invoked[fkPanicStruct] || invoked[fkPanicMulti] || invoked[fkPanicPlain]
 	ctxReportable := invoked[fkCtxErr] && inclCtx
 	cfg := fmt.Sprintf("%s[ce=%v,cp=%v,ic=%v,ex=%d]", name, contErr, contPanic, inclCtx, excl)
 	_ = cfg
@@ -315,6 +320,9 @@ func c03Run(w *W, enumerate bool) {
 	if (invoked[fkPanicErr] || invoked[fkPanicMulti]) && mustReport && !errors.Is(result, panicErr) {
 		w.Violate("error-lost", sig("error-lost", "panic-error"), "%s: panic(err) was recovered but errors.Is(result, err) is false; result=%v", name, result)
 	}
+	if invoked[fkPanicPlain] && excl != 1 && mustReport && !errors.Is(result, plainErr) {
+		w.Violate("error-lost", sig("error-lost", "panic-error"), "%s: panic(err) was recovered but errors.Is(result, err) is false; result=%v", name, result)
+	}
 	if invoked[fkAbort] && mustReport && !errors.Is(result, ers.ErrCurrentOpAbort) {
 		// ErrCurrentOpAbort is not among the errors the statement exempts from
 		// reporting (io.EOF, ErrIteratorSkip, context errors, ExcludedErrors)
@@ -324,7 +332,7 @@ func c03Run(w *W, enumerate bool) {
 		w.Violate("error-lost", sig("error-lost", "ctxerr-included"), "%s: IncludeContextExpirationErrors is set, the function returned context.Canceled, result=%v", name, result)
 	}
 	// never reported when they must not be
-	if (invoked[fkPlain] || invoked[fkWrapped]) && excl == 1 && errors.Is(result, plainErr) {
+	if (invoked[fkPlain] || invoked[fkWrapped]) && excl == 1 && !invoked[fkPanicPlain] && errors.Is(result, plainErr) {
 		w.Violate("excluded-error-reported", sig("excluded-error-reported", "plain"), "%s: %v is listed in ExcludedErrors but was reported: %v", name, plainErr, result)
 	}
 	if errors.Is(result, io.EOF) {
@@ -337,7 +345,7 @@ func c03Run(w *W, enumerate bool) {
 		w.Violate("ctxerr-reported", sig("ctxerr-reported", ""), "%s: a context error was reported without IncludeContextExpirationErrors: %v", name, result)
 	}
 	// nil exactly when nothing reportable happened
-	reportable := (invoked[fkPlain] || invoked[fkWrapped]) && excl != 1 || invoked[fkPanicErr] || invoked[fkPanicStr] || invoked[fkPanicStruct] || invoked[fkPanicMulti] || invoked[fkCtxErr] && inclCtx || invoked[fkAbort]
+	reportable := (invoked[fkPlain] || invoked[fkWrapped]) && excl != 1 || invoked[fkPanicErr] || invoked[fkPanicStr] || invoked[fkPanicStruct] || invoked[fkPanicMulti] || invoked[fkPanicPlain] || invoked[fkCtxErr] && inclCtx || invoked[fkAbort]
 	if !reportable && result != nil && !(realCancel && inclCtx) {
 		w.Violate("spurious-error", sig("spurious-error", ""), "%s: no reportable failure occurred but the result is %v", name, result)
 	}
